@@ -541,6 +541,8 @@ pub struct OrdWorld {
     peak: Vec<usize>,
     /// held handles: key -> handle per collection (C17)
     held: Vec<(i32, Vec<u32>)>,
+    /// keys an interrupted operation was about to change: always part of the observation window
+    touched: Vec<i32>,
     pub gen: OrdGen,
 }
 
@@ -591,7 +593,7 @@ impl OrdWorld {
             Some(r) => Self::draw_gen(&cfg, r),
             None => Self::default_gen(),
         };
-        OrdWorld { cfg, is_set, colls, twins: (0..n).map(|_| None).collect(), model: BTreeMap::new(), next_ver: 1, peak: vec![0; n], held: Vec::new(), gen }
+        OrdWorld { cfg, is_set, colls, twins: (0..n).map(|_| None).collect(), model: BTreeMap::new(), next_ver: 1, peak: vec![0; n], held: Vec::new(), touched: Vec::new(), gen }
     }
 
     fn default_gen() -> OrdGen {
@@ -738,6 +740,11 @@ impl OrdWorld {
                 set.insert(k.saturating_add(1));
             }
             set.insert(self.cfg.key_lo - 1);
+            for k in &self.touched {
+                set.insert(k.saturating_sub(1));
+                set.insert(*k);
+                set.insert(k.saturating_add(1));
+            }
             set.into_iter().collect()
         }
     }
@@ -938,9 +945,38 @@ impl OrdWorld {
             return Ok(());
         }
         self.post_structure(ctx, opkind)?;
+        // the keys the interrupted operation was about to change belong to the observation window
+        self.touched.clear();
+        if let Some(a) = after.as_ref() {
+            for (k, v) in a.iter() {
+                if self.model.get(k) != Some(v) && self.touched.len() < 8 {
+                    self.touched.push(*k);
+                }
+            }
+            for k in self.model.keys() {
+                if !a.contains_key(k) && self.touched.len() < 8 {
+                    self.touched.push(*k);
+                }
+            }
+        }
         let exp_before = self.expected_observation(&self.model);
         let exp_after = after.as_ref().map(|m| self.expected_observation(m));
         for ci in 0..self.colls.len() {
+            // the physically stored keys are those before or those after, whatever the window shows
+            if self.model.len() <= 5000 {
+                let ks = self.colls[ci].stored_keys();
+                let same = |m: &BTreeMap<i32, u32>| m.len() == ks.len() && m.keys().zip(ks.iter()).all(|(a, b)| a == b);
+                ctx.stats.oracle_evals += 1;
+                if !same(&self.model) && !after.as_ref().map(same).unwrap_or(false) {
+                    return Err(mismatch(
+                        "torn",
+                        self.colls[ci].name(),
+                        opkind,
+                        "stored keys neither before nor after",
+                        format!("after a callback panic inside {} the collection stores {} keys, the reference {} before / {} after the operation", opkind, ks.len(), self.model.len(), after.as_ref().map(|m| m.len()).unwrap_or(self.model.len())),
+                    ));
+                }
+            }
             let got = self.observe(ci, ctx, opkind, false)?;
             ctx.stats.oracle_evals += got.len() as u64;
             if let Some(ea) = exp_after.as_ref() {
@@ -1427,7 +1463,8 @@ impl OrdWorld {
                 cb_total = cb_total.saturating_add(cb);
             }
             if ci == 0 {
-                ctx.cb_counts.push(cb_total);
+                // no crash points inside a bulk build: it only sets the stage
+                ctx.cb_counts.push(if cfg.has(O_TORN) { 0 } else { cb_total });
             }
             if let Some(tw) = self.twins[ci].as_mut() {
                 for (chunk_no, chunk) in keys.chunks(2000).enumerate() {
@@ -1619,7 +1656,8 @@ impl World for OrdWorld {
             Op::ONext { k } | Op::OPrev { k } => self.is_set && self.model.contains_key(k),
             Op::OWalk => self.is_set,
             Op::OSweep => true,
-            Op::OBulk { n, pat } => self.model.is_empty() && *n > 0 && *n <= self.cfg.universe && *pat <= 4 && self.colls.iter().all(|c| !c.is_list()),
+            // (sorted lists take part in small bulk builds only: their insertion is quadratic)
+            Op::OBulk { n, pat } => self.model.is_empty() && *n > 0 && *n <= self.cfg.universe && *pat <= 4 && (*n <= 5000 || self.colls.iter().all(|c| !c.is_list())),
             _ => false,
         }
     }
